@@ -314,6 +314,7 @@ func runC16(t *rapid.T, st *vfhelp.Stats, p c16Plan) ([]string, bool, interface{
 			d := time.Duration(p.SaveDelayMs) * time.Millisecond
 			h.Mon.SaveDelay = func() time.Duration { return d }
 		}
+		h.Mon.OnViolation = res.violate
 		if err := h.Start(); err != nil {
 			return inconclusive("start")
 		}
@@ -520,7 +521,7 @@ func runC16(t *rapid.T, st *vfhelp.Stats, p c16Plan) ([]string, bool, interface{
 			return inconclusive(v.Sig)
 		}
 		if v.Sig == "linearizability-violated" || v.Sig == "completed-request-never-applied" || v.Sig == "replicas-applied-different-entries" ||
-			v.Sig == "restart-failed" || v.Sig == "restart-panics-commit-outside-log-range" || v.Sig == "update-index-not-increasing" || v.Sig == "ondisk-update-at-or-below-open-index" {
+			v.Sig == "restart-failed" || v.Sig == "restart-panics-commit-outside-log-range" || v.Sig == "log-compacted-beyond-durable-snapshot" || v.Sig == "update-index-not-increasing" || v.Sig == "ondisk-update-at-or-below-open-index" {
 			vfhelp.Fail(t, v.Sig, "after power cut at %s (fired %v): %s", ev, fired, v.Msg)
 		}
 		st.Count("foreign-violation:"+v.Sig, 1)
